@@ -201,7 +201,9 @@ static void for_read_side(const uint8_t *enc, size_t len, const uint64_t *v, siz
     /* random access */
     size_t bad = 0, K = idx_count(n);
     uint64_t firstbad[2] = {0, 0};
-    for (size_t k = 0; k < K; k++) {
+    /* any order: descending first, then ascending */
+    for (size_t kk = 0; kk < 2 * K; kk++) {
+        size_t k = kk < K ? K - 1 - kk : kk - K;
         size_t i = idx_at(n, k);
         uint64_t x = varintFORGetAt(in.p, i);
         if (x != v[i] && bad++ == 0) {
